@@ -293,7 +293,11 @@ def coq_obs(ob, keys):
         _, ex, pois = ob["terms"][k]
         cells = []
         for v, flag in zip(ex, pois):
-            if flag:
+            if flag and v is not None and kind(dt) != "c":
+                cells.append(f"IPV (VZ {cz(v)})")     # poison bytes that also spell an exact value of this dtype
+            elif flag and v is not None:
+                cells.append(f"IPV (VC {cz(v[0])} {cz(v[1])})")
+            elif flag:
                 cells.append("IP")
             elif v is None:
                 cells.append("IG")
